@@ -373,6 +373,20 @@ impl<'a> Ed<'a> {
         }
         p == to
     }
+    /// `@@before >anchor`: insert before the statement FOLLOWING the one that matches
+    fn before_next_pass(&mut self, stmts: &[syn::Stmt]) {
+        for i in 1..stmts.len() {
+            let pr = stmts[i - 1].span().byte_range();
+            let ptxt = stmt_text_no_attrs(self.src, &stmts[i - 1], pr.start, pr.end);
+            for (k, (anchor, ins)) in self.dir.befores.iter().enumerate() {
+                if anchor.starts_with('>') && !self.befores_used[k] && anchor_match(ptxt, anchor.as_str()) {
+                    self.befores_used[k] = true;
+                    let at = stmts[i].span().byte_range().start;
+                    self.edits.push(Edit { start: at, end: at, text: format!("{ins}\n"), kind: "splice-before", swallow: false });
+                }
+            }
+        }
+    }
     fn finish_cfg(&mut self) {
         let cfgs = std::mem::take(&mut self.cfg_false);
         for (s, e) in cfgs {
@@ -446,11 +460,18 @@ impl<'a, 'ast> Visit<'ast> for Ed<'a> {
         self.push(r.start, r.end, "", "E1-attr", false);
     }
 
+    fn visit_block(&mut self, b: &'ast syn::Block) {
+        self.before_next_pass(&b.stmts);
+        visit::visit_block(self, b);
+    }
     fn visit_stmt(&mut self, s: &'ast syn::Stmt) {
         self.node(s);
         let r = s.span().byte_range();
         let txt = self.src[r.clone()].trim_start();
         for (k, (anchor, ins)) in self.dir.befores.iter().enumerate() {
+            if anchor.starts_with('>') {
+                continue;
+            }
             if !self.befores_used[k] && anchor_match(txt, anchor.as_str()) {
                 self.befores_used[k] = true;
                 self.edits.push(Edit { start: r.start, end: r.start, text: format!("{ins}\n"), kind: "splice-before", swallow: false });
@@ -1207,6 +1228,10 @@ fn main() {
                     for (k, s) in blk.stmts.iter().enumerate() {
                         let r = s.span().byte_range();
                         let t = stmt_text_no_attrs(&src.text, s, r.start, r.end);
+                        if a.is_none() && from == "^" {
+                            // `@@from ^` = the first statement of the block
+                            a = Some(0);
+                        }
                         if a.is_none() && anchor_match(t, from) {
                             // `>anchor` = the statement following the matching one
                             a = Some(if from.starts_with('>') { k + 1 } else { k });
@@ -1232,6 +1257,7 @@ fn main() {
                     let a = a.unwrap_or_else(|| die(&format!("{ctx}: @@from anchor not found in the block: {from}")));
                     // `@@to $` = the last statement of the block
                     let b = if d.to.is_none() { a } else if to == "$" { blk.stmts.len() - 1 } else { b.unwrap_or_else(|| die(&format!("{ctx}: @@to anchor not found after @@from: {to}"))) };
+                    ed.before_next_pass(&blk.stmts[a..=b]);
                     for s in &blk.stmts[a..=b] {
                         ed.visit_stmt(s);
                     }
@@ -1302,6 +1328,7 @@ fn main() {
                         ed.visit_fn_arg(inp);
                     }
                     if !stub_this {
+                        ed.before_next_pass(&f.block.stmts);
                         for s in &f.block.stmts {
                             ed.visit_stmt(s);
                         }
